@@ -305,6 +305,20 @@ func TestC01(t *testing.T) {
 						}
 					}
 				}
+				// the hidden part of the state: a refused call has not used up a version number either. The next put
+				// by an entitled caller gets the number the acknowledged history says.
+				for _, l := range lv {
+					for _, n := range realdb.SortedNames(l.m) {
+						fresh := ops.Op{Kind: ops.Put, Name: n, Value: []byte("fresh-probe-value-\x00-" + n)}
+						want := ops.ApplyModel(l.m, nil, true, fresh)
+						got := ops.ApplyReal(l.d, realdb.Super(), fresh)
+						r.Count("version_counter_probes", 1)
+						if !ops.Agree(want, got) {
+							r.Violation(l.name+"-unauthorised-call-changed-state", c, fmt.Sprintf("case %d %s level, caller rules %v: after the calls of this case (refused ones included) a put on %q by an entitled caller returned %s; the acknowledged history says %s - a refused call has moved the version counter", c, l.name, rules, n, got, want), map[string]any{"rules": rules})
+							break
+						}
+					}
+				}
 				// the twins must still be empty
 				for _, l := range lv {
 					if tm, err := realdb.Dump(l.twin); err != nil || len(tm.S) != 0 {
@@ -328,7 +342,7 @@ func TestC01(t *testing.T) {
 		sameLoginOtherGrants(t, r, dir)
 		denialWithFlakyAudit(t, r, dir)
 	}
-	r.Require("overlapping_requests_same_login_other_grants", "denied_calls_with_flaky_audit", "rule_changes_mid_case", "concurrent_peer_replies", "concurrent_denied_calls", "cases", "http_cases_with_spoofed_identity_headers", "allowed_calls", "denied_calls", "denied_on_existing", "denied_on_absent")
+	r.Require("version_counter_probes", "overlapping_requests_same_login_other_grants", "denied_calls_with_flaky_audit", "rule_changes_mid_case", "concurrent_peer_replies", "concurrent_denied_calls", "cases", "http_cases_with_spoofed_identity_headers", "allowed_calls", "denied_calls", "denied_on_existing", "denied_on_absent")
 	r.Rule("case = (database state reached by 4-13 random superuser operations over a hostile 12-name pool incl. empty, reserved, newline, literal-'*' and path-like ('a/../b', 'a//b', 'a/b/') names; 0-3 random rules over the 5 actions (+unknown ones) and 23 exact/wildcard/regexp-meta patterns); then all 9 operations x all 8 names x versions {0,1,2,9} in random order, at the DB API and through the HTTP handlers. Distinct = (level, operation, authorised?, secret exists?, model outcome class, rule count)")
 }
 
